@@ -1,0 +1,8 @@
+//go:build !verif
+
+package hsms
+
+// vgate is a verification gate point. Without the `verif` build tag it is an
+// empty function that the compiler inlines away; with the tag a test harness
+// can park the calling goroutine at the named point (see vhook_verif.go).
+func vgate(string) {}
